@@ -30,8 +30,8 @@ CHECKS['C04'] = {
         'the DELETE response body (copies_deleted) is not compared',
     ],
     'units': [
-        unit('histories', 'keepstore_c04', '^TestVerifC04Histories$', _cfg({'shards': 12, 'checks': 80}), _cfg({'shards': 16, 'checks': 10000, 'timeout': 1500})),
-        unit('interleave', 'keepstore_c04', '^TestVerifC04Interleave$', _cfg({'shards': 2, 'checks': 15}), _cfg({'shards': 8, 'checks': 500, 'timeout': 1500})),
+        unit('histories', 'keepstore_c04', '^TestVerifC04Histories$', _cfg({'shards': 12, 'checks': 80}), _cfg({'shards': 16, 'checks': 25000, 'timeout': 3000})),
+        unit('interleave', 'keepstore_c04', '^TestVerifC04Interleave$', _cfg({'shards': 2, 'checks': 15}), _cfg({'shards': 8, 'checks': 1500, 'timeout': 3000})),
         unit('exhaustive', 'keepstore_c04', '^TestVerifC04Exhaustive$', _cfg({'shards': 2, 'env': {'VERIF_NSHARDS': 2}}), _cfg({'shards': 8, 'env': {'VERIF_NSHARDS': 8}, 'timeout': 1500}),
              rapid=False, shard_arg=True),
     ],
